@@ -76,3 +76,23 @@ pub use chunk_timing_stats::*;
 mod search;
 
 const REALTIME_BUCKET: &str = "unidata-nexrad-level2-chunks";
+
+/// Verification-only hook (cargo feature `verif-hooks`): exposes the crate-private rotated search
+/// so that a test harness can drive it with in-memory arrays.
+#[cfg(feature = "verif-hooks")]
+pub mod verif_hooks {
+    use std::future::Future;
+
+    /// Forwards to the crate-private `search` routine unchanged.
+    pub async fn search<F, V>(
+        element_count: usize,
+        target: V,
+        f: impl FnMut(usize) -> F,
+    ) -> crate::result::Result<Option<usize>>
+    where
+        F: Future<Output = crate::result::Result<Option<V>>>,
+        V: PartialOrd + Clone,
+    {
+        super::search::search(element_count, target, f).await
+    }
+}
